@@ -487,8 +487,9 @@ FSame(f, x, y) ==
 \* upcast(downcast(x)) with x replaced for the whole pattern: the reading under which the rewriter's
 \* rule upcast(downcast(x)) -> x is an identity (used to CLASSIFY a float disagreement, see Trace_Rewrite)
 RECURSIVE ElimUD(_)
-ElimUD(t) == IF t.k = "upcast" /\ t.a[1].k = "downcast" THEN ElimUD(t.a[1].a[1])
-             ELSE [t EXCEPT !.a = [i \in 1..Len(t.a) |-> ElimUD(t.a[i])]]
+\* (bottom-up: the operands are normalised first, so upcast(upcast(downcast(downcast(x)))) becomes x as well)
+ElimUD(t) == LET t1 == [t EXCEPT !.a = [i \in 1..Len(t.a) |-> ElimUD(t.a[i])]]
+             IN  IF t1.k = "upcast" /\ t1.a[1].k = "downcast" THEN t1.a[1].a[1] ELSE t1
 
 (*************************** assignments ************************************)
 \* values given to float symbols (finite; zeros of both signs; a subnormal; the extremes)
